@@ -14,14 +14,21 @@
    PRODUCTS WITH A LITERAL OPERAND ([scf2_op]): the two nodes of Compile/TSemSemMul.v are replayed
    for [relQ] at the end of Section ScalarG3 ([mul_lit_node3], [mul_plain_node3], [mul_lit_node_b3]);
    the checker accepts `x * c` / `c * x` when the repeated-addition rewrite does not fire
-   (an ordinary checked product) or when [mul_node_ok] holds. *)
+   (an ordinary checked product) or when [mul_node_ok] holds.
+
+   == / != ON VALUES OF ANY ONE TYPE ([scf2_op], [agg_eq_node]): tuples, arrays, structs, enums;
+   Sem.v compares the values, the compiler the flattened wires; they agree under the value
+   encoding (Compile/TSemSemEq.v: [has_enc_eqb]).  [SanityAggEq]: on non-canonical inputs they differ.
+
+   ARRAYS OF ZERO-SIZED ELEMENTS: [idx_node] / [acc_ok] no longer ask for elements of at least one
+   bit (Compile/TSemArrayZ.v: the three array theorems for every element size); [SanityZeroSized]. *)
 From Coq Require Import Lia ZArith.
 From GV Require Import Base.Util Base.Bits Base.BitsProofs Lang.Ast Lang.Wt Lang.ValTy Lang.WtShape
   Gadgets.Gadgets Gadgets.GadgetSpec Gadgets.Arith Gadgets.Extend Gadgets.ExtendProofs
   Panic.PanicRec Panic.PanicSem Compile.Lower Compile.TSem Compile.TSemFacts Compile.TSemArith1
   Compile.TSemArith2 Compile.TSemControl Compile.TSemArray Compile.TSemSemExpr Compile.ValEnc
   Compile.TSemSticky Compile.TSemSemStmt Compile.TSemSemMul Compile.TSemSemCall Compile.TSemSemAgg
-  Compile.TSemSemFull.
+  Compile.TSemSemEq Compile.TSemArrayZ Compile.TSemSemFull.
 From GV Require Lang.Sem.
 Local Open Scope N_scope.
 
@@ -1149,11 +1156,10 @@ Section Agg3.
   Lemma idx_node f g a i m t n b :
     AgE' f g a -> AgE' f g i ->
     e_ty a = TArr t n -> e_ty i = TInt false b -> (b <=? 32) = true -> (n <? 2 ^ 32) = true ->
-    (1 <=? szn P t)%nat = true ->
     AgE' (S f) g (Ex (EIdx a i) m t).
   Proof.
-    intros IHa IHi Eta Eti Hb Hn Heb ph en E fT w E' o' Hrel Hrun.
-    apply N.ltb_lt in Hn. apply Nat.leb_le in Heb.
+    intros IHa IHi Eta Eti Hb Hn ph en E fT w E' o' Hrel Hrun.
+    apply N.ltb_lt in Hn.
     destruct fT as [|fT]; [discriminate Hrun|]. rewrite lower_expr_S in Hrun. cbn [lower_expr_body] in Hrun.
     rewrite Eta in Hrun. cbn [array_size] in Hrun.
     minva Hrun as [eb0 ne] o0 H0. apply lift_res_inv in H0. destruct H0 as [H0 ->]. injection H0 as <- <-.
@@ -1179,7 +1185,7 @@ Section Agg3.
       rewrite tsem_array_read_empty in H3 by exact Hli. injection H3 as _ _ <-.
       rewrite Hlvs. replace ((0 <=? z)%Z && (z <? Z.of_nat 0)%Z) with false; [apply pcode_oob|].
       symmetry. apply andb_false_iff. right. apply Z.ltb_ge. lia.
-    - rewrite (tsem_array_read elems idx (szn P t) (S n') m None) in H3; try assumption; try lia.
+    - rewrite (tsem_array_read_any elems idx (szn P t) (S n') m None) in H3; try assumption; try lia.
       injection H3 as <- _ <-. rewrite Hbz, Hlvs.
       destruct (Z.ltb_spec z (Z.of_nat (S n'))) as [Hlt|Hge].
       + replace (0 <=? z)%Z with true by (symmetry; apply Z.leb_le; exact Hz0). cbn [andb].
@@ -1231,7 +1237,7 @@ Section Agg3.
   | AO_nil t : acc_ok f g [] t t
   | AO_idx ie r el n b tf :
       AgE' f g ie -> e_ty ie = TInt false b -> (b <=? 32) = true -> (n <? 2 ^ 32) = true ->
-      (1 <=? szn P el)%nat = true -> acc_ok f g r el tf ->
+      acc_ok f g r el tf ->
       acc_ok f g (AIdx (TArr el n) ie :: r) (TArr el n) tf
   | AO_tup i r ts ti tf :
       nthN ts i = Some ti -> acc_ok f g r ti tf ->
@@ -1254,7 +1260,7 @@ Section Agg3.
     | _ => True
     end.
   Proof.
-    induction 1 as [t|ie r el n b tf IHie Eti Hb Hn Heb _ IH|i r ts ti tf Hi _ IH|fld r name def k tk tf Hd Hk Htk _ IH];
+    induction 1 as [t|ie r el n b tf IHie Eti Hb Hn _ IH|i r ts ti tf Hi _ IH|fld r name def k tk tf Hd Hk Htk _ IH];
       intros cur wc en E fT prev acc_rev idxs E' o' HV Hfit Hrel Hrun.
     - cbn [assign_indexes] in Hrun. apply ret_inv in Hrun. destruct Hrun as [Heq ->]. injection Heq as -> ->.
       cbn [TSemSemAgg.sem_read]. split; [reflexivity|]. split; [exact Hrel|].
@@ -1356,7 +1362,7 @@ Section Agg3.
       exists whole wv, Sem.write_path cur path nv = Some whole /\ has_enc P tcur whole wv /\
         forall o2, assign_backward tops m items value o2 = Ok (wv, o2).
   Proof.
-    induction 1 as [t|ie r el n b tf IHie Eti Hb Hn Heb _ IH|i r ts ti tf Hi _ IH|fld r name def k tk tf Hd Hk Htk _ IH];
+    induction 1 as [t|ie r el n b tf IHie Eti Hb Hn _ IH|i r ts ti tf Hi _ IH|fld r name def k tk tf Hd Hk Htk _ IH];
       intros path iws Hpr cur coll acc o accessed o1 HV Hfit Hrun.
     - inversion Hpr; subst. cbn [assign_forward] in Hrun. apply ret_inv in Hrun. destruct Hrun as [-> ->].
       split; [reflexivity|]. exists []. split; [reflexivity|]. intros nv value Hnv.
@@ -1365,11 +1371,11 @@ Section Agg3.
       cbn [assign_forward array_size] in Hrun.
       minva Hrun as [eb0 ne] o0 H0. apply lift_res_inv in H0. destruct H0 as [H0 ->]. injection H0 as <- <-.
       minva Hrun as arr' o2 H2.
-      apply N.ltb_lt in Hn. apply Nat.leb_le in Heb.
+      apply N.ltb_lt in Hn.
       pose proof HV as HV'. apply has_enc_inv in HV' as (vs & -> & _ & _).
       destruct (has_enc_array_elems P el n vs coll HV Hfit) as (elems & -> & Hf2 & Hall & Hle & Hlv & _).
       assert (Hlvs : length vs = N.to_nat n) by (unfold lenN in Hlv; lia).
-      rewrite (tsem_index_layers_in_bounds iw elems (szn P el) o (repeat true (szn P el))) in H2;
+      rewrite (tsem_index_layers_in_bounds_any iw elems (szn P el) o (repeat true (szn P el))) in H2;
         try assumption; try (unfold lenN; rewrite ?Hliw, ?Hle; unfold USZ; lia).
       injection H2 as <- <-.
       set (kk := N.to_nat (bits_to_N iw)) in *.
@@ -1382,7 +1388,7 @@ Section Agg3.
                     | [] => repeat (wF tops) (szn P el)
                     | _ :: _ => nth kk elems (repeat true (szn P el)) end
                     = nth kk elems (repeat true (szn P el))).
-      { destruct (nth kk elems (repeat true (szn P el))); [cbn [length] in Hlsub; lia|reflexivity]. }
+      { destruct (nth kk elems (repeat true (szn P el))); [cbn [length] in Hlsub; rewrite <- Hlsub; reflexivity|reflexivity]. }
       rewrite Hne in Hrun.
       destruct (IH p iws' Hpr' sub _ _ _ _ _ Hsub Hfel Hrun) as (-> & items & -> & Hback).
       split; [reflexivity|].
@@ -1398,7 +1404,7 @@ Section Agg3.
         * eexists. split; [|reflexivity]. exact (F2_has_enc_list_set P el vs elems kk sub' wv' _ Hf2 Hsub' Hset).
       + intro o2. rewrite assign_backward_app. unfold mbind at 1. rewrite Hb'.
         cbn [assign_backward]. rewrite <- Hle. unfold mbind.
-        rewrite (tsem_array_write elems iw wv' (szn P el) m o2); try assumption;
+        rewrite (tsem_array_write_any elems iw wv' (szn P el) m o2); try assumption;
           try (unfold lenN; rewrite ?Hliw, ?Hle; unfold USZ; lia).
         2:{ exact (has_enc_length P el sub' wv' Hsub' Hfel). }
         fold kk. unfold ret.
@@ -2144,6 +2150,7 @@ Definition scf2_op (o : binop) (x y : expr) (m : meta) (t : ty) : bool :=
   | OMul, TInt _ b =>
       sty_eqb (e_ty x) t && sty_eqb (e_ty y) t &&
       match mul_rewrite x y m t with None => ok_width b | Some _ => mul_node_ok x y m t end
+  | OEq, TBool | ONe, TBool => ty_beq (e_ty y) (e_ty x)     (* == / != on values of ANY one type *)
   | _, _ => false
   end.
 
@@ -2172,8 +2179,7 @@ Fixpoint scf2_expr (fuel : nat) (P : program) (g : tenv) (e : expr) {struct fuel
       | EIdx a i =>
           match e_ty a, e_ty i with
           | TArr el n, TInt false b =>
-              ty_beq el t && (b <=? 32) && (n <? 2 ^ 32) && (1 <=? szn P t)%nat &&
-              scf2_expr f P g a && scf2_expr f P g i
+              ty_beq el t && (b <=? 32) && (n <? 2 ^ 32) && scf2_expr f P g a && scf2_expr f P g i
           | _, _ => false
           end
       | ETupLit es => ty_beq t (TTup (map e_ty es)) && forallb (scf2_expr f P g) es && ty_fits_b P t
@@ -2286,8 +2292,7 @@ with scf2_stmt (fuel : nat) (P : program) (g : tenv) (s : stmt) {struct fuel} : 
                          | AIdx aty ie :: r =>
                              match cur, e_ty ie with
                              | TArr el n, TInt false b =>
-                                 if ty_beq aty cur && (b <=? 32) && (n <? 2 ^ 32) && (1 <=? szn P el)%nat &&
-                                    scf2_expr f P g ie
+                                 if ty_beq aty cur && (b <=? 32) && (n <? 2 ^ 32) && scf2_expr f P g ie
                                  then go r el else None
                              | _, _ => None
                              end
@@ -2445,11 +2450,47 @@ Section MainF2.
       apply int_agrees; [assumption|left; split; reflexivity].
   Qed.
 
+  (* == / != on two values of one type, aggregates included: Sem.v compares the values, the
+     compiler the flattened wires (Compile/TSemSemEq.v) *)
+  Lemma agg_eq_node f g (o : binop) x y m : o = OEq \/ o = ONe -> e_ty y = e_ty x ->
+    AgE' f g x -> AgE' f g y -> AgE' (S f) g (Ex (EOp o x y) m TBool).
+  Proof.
+    intros Ho Ety IHx IHy ph en E fT w E' o' Hrel Hrun.
+    assert (Hoe : op_arith o || op_cmp o || op_eq o = true) by (destruct Ho as [-> | ->]; reflexivity).
+    destruct fT as [|fT]; [discriminate Hrun|]. rewrite lower_expr_S in Hrun.
+    apply binop_run_inv in Hrun; [|exact Hoe|destruct Ho as [-> | ->]; intro; discriminate].
+    destruct Hrun as (xw & E1 & o1 & yw & o2 & Hx & Hy & Hb).
+    rewrite (sem_eval_op P f en o x y m TBool Hoe).
+    pose proof (IHx ph en E fT _ _ _ Hrel Hx) as IH1. revert IH1.
+    destruct (Sem.eval f P en x) as [[vx en1]|r1 m1|c1|]; intro IH1; cbn [Sem.obind]; try exact I.
+    - destruct IH1 as (-> & HVx & Hrel1).
+      pose proof (IHy ph en1 E1 fT _ _ _ Hrel1 Hy) as IH2. revert IH2.
+      destruct (Sem.eval f P en1 y) as [[vy en2]|r2 m2|c2|]; intro IH2; cbn [Sem.obind]; try exact I.
+      + destruct IH2 as (-> & HVy & Hrel2). rewrite Ety in HVy, Hb.
+        destruct HVx as [Hex Hfit]. destruct HVy as [Hey _].
+        assert (Hl : length xw = length yw)
+          by (rewrite (has_enc_length P _ _ _ Hex Hfit), (has_enc_length P _ _ _ Hey Hfit); reflexivity).
+        pose proof (has_enc_eqb P Hsmall _ _ _ _ _ Hex Hey Hfit) as Heq.
+        destruct Ho as [-> | ->]; cbn [Sem.eval_binop Sem.obind e_ty].
+        * rewrite lower_eq_bits in Hb by exact Hl. injection Hb as <- <-. rewrite Heq.
+          split; [reflexivity|]. split; [split; [constructor|apply ty_fits_bool]|].
+          eapply rel3_scopes; [|exact Hrel2]. reflexivity.
+        * rewrite lower_ne_bits in Hb by exact Hl. injection Hb as <- <-. rewrite Heq.
+          split; [reflexivity|]. split; [split; [constructor|apply ty_fits_bool]|].
+          eapply rel3_scopes; [|exact Hrel2]. reflexivity.
+      + subst o2. exact (stkx_lower_binop _ _ _ _ _ _ _ _ _ _ Hb).
+    - subst o1. pose proof (sticky_e P _ _ _ _ _ _ _ Hy) as ->.
+      exact (stkx_lower_binop _ _ _ _ _ _ _ _ _ _ Hb).
+  Qed.
+
   Lemma op_step_f2 f g o x y m t :
     scf2_op o x y m t = true -> AgE' f g x -> AgE' f g y -> AgE' (S f) g (Ex (EOp o x y) m t).
   Proof.
     intros Hop IHx IHy. unfold scf2_op in Hop. apply orb_prop in Hop. destruct Hop as [Hop|Hop];
-      [|destruct o; try discriminate Hop; now apply mul_step_f2].
+      [|destruct o; try discriminate Hop;
+        [now apply mul_step_f2
+        |destruct t; try discriminate Hop; apply ty_beq_eq in Hop; apply agg_eq_node; auto
+        |destruct t; try discriminate Hop; apply ty_beq_eq in Hop; apply agg_eq_node; auto]].
     destruct o; cbn [sc_op] in Hop.
     (* arithmetic and bitwise *)
     1-8: destruct t as [|sg b| | | |]; try discriminate Hop; bsplit; try discriminate; eqs;
@@ -2935,3 +2976,93 @@ Module SanityMul.
   Example rejected : in_full_fragment2 6 (mkProgram [] [] [neg_fn] [] 11) = false.
   Proof. vm_compute. reflexivity. Qed.
 End SanityMul.
+
+(* == / != on aggregates: accepted; on canonical inputs the two semantics agree (by the theorem).
+   On a NON-canonical input they differ: Sem.v decodes the arguments and compares the VALUES, the
+   circuit compares the WIRES, and the unused payload bits of an enum value are wires too
+   (finding: aggregate-eq-compares-padding; [canonical_main_args] excludes such inputs) *)
+Module SanityAggEq.
+  Definition mm (k : N) : meta := mkMeta k 1 k 9.
+  Definition u8 := TInt false 8.
+  Definition te := TEnum 30.                   (* enum E { A, B(u8) } *)
+  Definition tt := TTup [te; TArr u8 2].
+  Definition v (x : N) (t : ty) (k : N) := Ex (EId x) (mm k) t.
+  (* pub fn main(a: (E, [u8; 2]), b: (E, [u8; 2])) -> (bool, bool) { (a == b, a.1 != b.1) } *)
+  Definition main_fn : fndef :=
+    mkFn 11 [(1, tt); (2, tt)] (TTup [TBool; TBool])
+      [ St (SExpr (Ex (ETupLit
+          [ Ex (EOp OEq (v 1 tt 1) (v 2 tt 2)) (mm 3) TBool;
+            Ex (EOp ONe (Ex (ETupAcc (v 1 tt 4) 1) (mm 5) (TArr u8 2)) (Ex (ETupAcc (v 2 tt 6) 1) (mm 7) (TArr u8 2)))
+               (mm 8) TBool ]) (mm 9) (TTup [TBool; TBool]))) (mm 10) ].
+  Definition P0 : program := mkProgram [] [(30, [[]; [u8]])] [main_fn] [] 11.
+
+  Example accepted : in_full_fragment2 6 P0 = true.
+  Proof. vm_compute. reflexivity. Qed.
+
+  Definition arg (tag : bool) (payload x y : Z) : list bool := (tag :: enc 8 payload) ++ enc 8 x ++ enc 8 y.
+
+  (* canonical inputs: B(7), [1, 2] twice *)
+  Example equal_values : exists o outs l,
+    tsem_program 8 P0 [arg true 7 1 2; arg true 7 1 2] = Ok (o, outs) /\
+    Sem.run_main 8 P0 [arg true 7 1 2; arg true 7 1 2] = Sem.RunOk [true; false] l /\ o = None /\ outs = [true; false].
+  Proof.
+    destruct (tsem_program 8 P0 [arg true 7 1 2; arg true 7 1 2]) as [[o outs]| |] eqn:Hrun;
+      [|vm_compute in Hrun; discriminate Hrun|vm_compute in Hrun; discriminate Hrun].
+    assert (Hcan : canonical_main_args P0 [arg true 7 1 2; arg true 7 1 2] = true) by (vm_compute; reflexivity).
+    pose proof (in_full_fragment2_sound P0 8 6 8 _ o outs accepted Hcan Hrun) as H.
+    assert (exists l, Sem.run_main 8 P0 [arg true 7 1 2; arg true 7 1 2] = Sem.RunOk [true; false] l) as [l Ev]
+      by (eexists; vm_compute; reflexivity).
+    rewrite Ev in H. destruct H as [-> ->]. exists None, [true; false], l. repeat split; assumption || reflexivity.
+  Qed.
+
+  (* the variant A has no payload; 255 in its unused payload bits is not a canonical encoding:
+     Sem.v says a == b, the circuit says a != b *)
+  Example padding_is_compared :
+    canonical_main_args P0 [arg false 255 1 2; arg false 0 1 2] = false /\
+    Sem.run_main 8 P0 [arg false 255 1 2; arg false 0 1 2] = Sem.RunOk [true; false] false /\
+    tsem_program 8 P0 [arg false 255 1 2; arg false 0 1 2] = Ok (None, [false; false]).
+  Proof. vm_compute. repeat split; reflexivity. Qed.
+End SanityAggEq.
+
+(* arrays of zero-sized elements (Compile/TSemArrayZ.v): accepted; reads / writes have no wires,
+   the bounds checks are the usual ones *)
+Module SanityZeroSized.
+  Definition mm (k : N) : meta := mkMeta k 1 k 9.
+  Definition u8 := TInt false 8.
+  Definition u32 := TInt false 32.
+  Definition tu := TTup [].
+  Definition ta := TArr tu 3.
+  (* pub fn main(i: usize) -> u8 { let mut a = [(); 3]; a[i] = (); 1u8 } *)
+  Definition main_fn : fndef :=
+    mkFn 11 [(1, u32)] u8
+      [ St (SLetMut 0 (Ex (EArrRep (Ex (ETupLit []) (mm 1) tu) 3) (mm 2) ta)) (mm 3);
+        St (SAssign 0 [AIdx ta (Ex (EId 1) (mm 4) u32)] (Ex (ETupLit []) (mm 5) tu)) (mm 6);
+        St (SExpr (Ex (ENumU 1 8) (mm 7) u8)) (mm 8) ].
+  Definition P0 : program := mkProgram [] [] [main_fn] [] 11.
+
+  Example accepted : in_full_fragment2 6 P0 = true.
+  Proof. vm_compute. reflexivity. Qed.
+
+  Ltac run A :=
+    destruct (tsem_program 8 P0 A) as [[o outs]| |] eqn:Hrun;
+      [|vm_compute in Hrun; discriminate Hrun|vm_compute in Hrun; discriminate Hrun];
+    assert (Hcan : canonical_main_args P0 A = true) by (vm_compute; reflexivity);
+    pose proof (in_full_fragment2_sound P0 8 6 8 _ o outs accepted Hcan Hrun) as H.
+
+  Example in_bounds : exists o outs l, tsem_program 8 P0 [enc 32 1] = Ok (o, outs) /\
+    Sem.run_main 8 P0 [enc 32 1] = Sem.RunOk (enc 8 1) l /\ o = None /\ outs = enc 8 1.
+  Proof.
+    run [enc 32 1].
+    assert (exists l, Sem.run_main 8 P0 [enc 32 1] = Sem.RunOk (enc 8 1) l) as [l Ev] by (eexists; vm_compute; reflexivity).
+    rewrite Ev in H. destruct H as [-> ->]. exists None, (enc 8 1), l. repeat split; assumption || reflexivity.
+  Qed.
+
+  Example out_of_bounds : exists o outs, tsem_program 8 P0 [enc 32 5] = Ok (o, outs) /\
+    Sem.run_main 8 P0 [enc 32 5] = Sem.RunPanic Sem.ROutOfBounds (mm 6) /\
+    o = Some (preason_num OutOfBounds, ploc32 (ploc_of (mm 6))).
+  Proof.
+    run [enc 32 5].
+    assert (Sem.run_main 8 P0 [enc 32 5] = Sem.RunPanic Sem.ROutOfBounds (mm 6)) as Ev by (vm_compute; reflexivity).
+    rewrite Ev in H. eauto.
+  Qed.
+End SanityZeroSized.
